@@ -404,17 +404,20 @@ func resolveUnionBatch(ctx context.Context, sources []interface{}, typ *Union, s
 	var workUnits []*WorkUnit
 	for srcType, sources := range sourcesByType {
 		gqlType := typ.Types[srcType]
+		// Resolve every object once, against all fragments that apply to its
+		// type. Flatten merges them and evaluates their directives.
+		applicable := &SelectionSet{Selections: selectionSet.Selections}
 		for _, fragment := range selectionSet.Fragments {
 			if fragment.On != srcType {
 				continue
 			}
-			units, err := resolveObjectBatch(ctx, sources, gqlType, fragment.SelectionSet, destinationsByType[srcType])
-			if err != nil {
-				return nil, err
-			}
-			workUnits = append(workUnits, units...)
+			applicable.Fragments = append(applicable.Fragments, fragment)
 		}
-
+		units, err := resolveObjectBatch(ctx, sources, gqlType, applicable, destinationsByType[srcType])
+		if err != nil {
+			return nil, err
+		}
+		workUnits = append(workUnits, units...)
 	}
 	return workUnits, nil
 }
